@@ -365,14 +365,14 @@ def allcirc_hyp(ck, c, strips, what):
 
 def netspec_hyp(c):
     """hypotheses of the netlist-level reading (C02.sim8_netlist_all_circuits: forksOKB; oracle_labelling_is_simulation:
-    additionally linesDrivenB) on the real circuit and order; histogram tag only"""
+    additionally linesDrivenB; the arity domain Net.arityOKB, audit finding 1 / D33) on the real circuit and order; histogram tag only"""
     from . import circ
     try:
         order = ','.join(str(n.index) for n in c.topological_order())
-        out = run_driver([f'net {circ.dump_net(c)}', f'netspeccert {order}'])[1]
+        out = ' '.join(run_driver([f'net {circ.dump_net(c)}', f'netspeccert {order}', 'netarity'])[1:])
     except Exception as ex:
         return f'netspec-hyp:not-evaluated({type(ex).__name__})'
-    return 'netspec-hyp:' + ('ok' if out == 'forks=true lines=true' else out.replace(' ', ','))
+    return 'netspec-hyp:' + ('ok' if out == 'forks=true lines=true arity=true' else out.replace(' ', ','))
 
 
 def theorems_of(relpath, namespace):
